@@ -1,0 +1,16 @@
+//go:build verif
+
+package state
+
+// Completeness of the tracking loop (property C30, "returns promptly if the
+// state has already changed"). Comment-only file read by /verif/govc.
+//
+// Whenever the tracking loop goes to sleep on the condition variable, every
+// request that is still registered carries a previous index equal to the
+// current index: every registered request whose previous index differs from
+// the current index - smaller OR greater (index wrap-around, an index kept
+// from an earlier tracker) - has been answered and deregistered in that pass.
+// Loop 3 is the scanning range loop over t.pollRequests.
+//@ func (*Tracker).track
+//@   loop 3 invariant[answered] forall q *pollRequest :: visited(q) && t.pollRequests != nil && has(t.pollRequests, q) ==> q.previousIndex == t.index
+//@   at call (*Cond).Wait assert[answered] forall q *pollRequest :: t.pollRequests != nil && has(t.pollRequests, q) ==> q.previousIndex == t.index
